@@ -1,4 +1,39 @@
 from props.client_props import gen_c10
-PROP = {"id": "C10", "stages": [{"name": "client", "target": "h_client", "gen": gen_c10, "shard": 12}], "trivial_tags": [],
+
+from props.e2egen import *
+from props.e2egen import line as eline
+
+def gen_e2e(ctx):
+    """TLS (and plain) sessions over real sockets: login / logout / login, a second login, 421 then connect without
+    disconnect, reconnects - the command sequence of every call against the reference automaton with AUTH TLS / PBSZ / PROT"""
+    rng = ctx["rng"]
+    noop = "noop@" + R(b"200 ok")
+    def login(codes=(331, 230), pbsz=200, prot=200, tls=1):
+        g = [R(b"%d user" % codes[0])]
+        last = codes[0]
+        if codes[0] == 331:
+            g.append(R(b"%d pass" % codes[1])); last = codes[1]
+        if last < 400:
+            if tls:
+                g.append(R(b"%d pbsz" % pbsz))
+                if pbsz < 400: g.append(R(b"%d prot" % prot))
+            g.append(R(b"200 type"))
+        return "login:%s:%s@" % (H(b"user2"), H(b"pass2")) + "/".join(g)
+    for ver in (13, 12):
+        for tls in (1, 0):
+            c = cfg_str(ver=ver, tls=tls, prop="C10")
+            con = lambda **kw: connect(tls=bool(tls), **kw)
+            yield eline(c, [con(), noop, "logout@" + R(b"220 reinitialised"), login(tls=tls), noop, "disc:1@" + R(b"221 bye"), con(), noop, get("p", 1)])
+            yield eline(c, [con(), login(tls=tls), noop, get("p", 1)])
+            yield eline(c, [con(), "noop@" + R(b"421 closing") + ",X", "isconn", con(), noop, get("p", 1)])
+            yield eline(c, [con(), "noop@" + R(b"421 closing") + ",X", "disc:0", con(), noop])
+            yield eline(c, [con(user=None), login(tls=tls), "logout@" + R(b"220 again"), login(tls=tls), "logout@" + R(b"500 no"), login(tls=tls), noop])
+            for codes in ((331, 230), (331, 530), (230, 0), (530, 0), (332, 0)):
+                for pbsz, prot in ((200, 200), (500, 200), (200, 534)):
+                    yield eline(c, [con(user=None), login(codes=codes, pbsz=pbsz, prot=prot, tls=tls), noop])
+    ctx["scopes"].append("TLS 1.2/1.3 and plain sessions over real sockets: login/logout/login, second login, 421 then connect with and without disconnect, login x 5 code patterns x PBSZ/PROT refusals")
+
+PROP = {"id": "C10", "stages": [{"name": "client", "target": "h_client", "gen": gen_c10, "shard": 12},
+                   {"name": "e2e", "target": "h_e2e", "gen": gen_e2e, "shard": 4}], "trivial_tags": [],
         "rule": 'login x every code class at USER / PASS / TYPE, connect with user, rename, TYPE and every simple call x 15 reply codes (incl. 230, 331, 332, 350, 421, 530), both configured types, random histories; command lines written vs. the reference automaton driven by the codes received; returned replies; reported transfer type.',
         "assumptions": ["in-memory control transport (a socket_base subclass) stands in for the TCP control socket; data connections are real loopback TCP", "oracle values (read sizes, kernel-chosen ports, connect results) are taken from the implementation run"]}
